@@ -267,7 +267,7 @@ func fakeWorker(w http.ResponseWriter, r *http.Request) {
 	case "hang":
 		select {
 		case <-r.Context().Done():
-		case <-time.After(20 * time.Second):
+		case <-time.After(10 * time.Minute): // far beyond any caller deadline of the harness
 		}
 	case "malformed":
 		io.WriteString(w, "<html>not json</html>")
